@@ -70,8 +70,10 @@ impl HybridImpressionInfo {
     /// ## Panics
     /// If not enough delimiters are found in the input bytes.
     pub fn from_bytes(bytes: &[u8]) -> Result<Self, InvalidHybridReportError> {
-        let Some(&key_id) = bytes.first() else {
-            return Err(InvalidHybridReportError::Length(0, 1));
+        // The section holds the key identifier and nothing else; accepting trailing bytes would
+        // give the same report more than one valid encoding.
+        let &[key_id] = bytes else {
+            return Err(InvalidHybridReportError::Length(bytes.len(), 1));
         };
         Ok(Self { key_id })
     }
